@@ -1382,9 +1382,28 @@ def _attributes(repo, rep):
     rep.check("if msgid is missing and implicit_i18n: msgid = text" in text,
               "R10.6", site, "an implicitly translated static attribute uses "
               "its text as msgid", construct="attr-implicit", where=wh)
-    rep.check("if msgid is not missing: value = nodes.Translate(msgid, value)"
-              in text, "R10.6", site, "translation wraps the attribute value",
-              construct="attr-wrap", where=wh)
+    wraps_ = [a_ for a_ in ast.walk(f.node) if isinstance(a_, ast.Assign)
+              and src(a_.targets[0]) == "value"
+              and src(a_.value) == "nodes.Translate(msgid, value)"]
+    gtxt = [" and ".join(
+        src(L.inline_locals(f.node, t_)) if v_ else
+        "not (%s)" % src(L.inline_locals(f.node, t_))
+        for t_, v_ in L.guards_of(a_, f.node)
+        if isinstance(t_, ast.expr)) for a_ in wraps_]
+    rep.check(bool(wraps_) and all("msgid is not missing" in g
+                                   for g in gtxt), "R10.6", site,
+              "translation wraps the attribute value whenever a message id "
+              "applies", construct="attr-wrap", where=wh,
+              detail="; ".join(g[:120] for g in gtxt))
+    # "an element whose static content is empty is not translated; the same
+    # contract holds for attributes": an empty static value without a
+    # message id of its own is not offered to the translation function
+    rep.check(bool(wraps_) and all(
+        "value.value == ''" in g and "isinstance(value, ast.Constant)" in g
+        and "not msgid" in g for g in gtxt), "R10.6", site, "an empty "
+        "static attribute value without an explicit message id is not "
+        "translated", construct="attr-empty-not-translated", where=wh,
+        detail="; ".join(g[:160] for g in gtxt))
     # exactly once: an interpolated attribute is translated either inline
     # (implicit, no entry in i18n:attributes) or by the Translate wrapper
     # (entry present) -- the two conditions exclude each other
